@@ -60,7 +60,11 @@ def handles(pool: gen.Pool, rng):
     for x in pool.vectors:
         views = [x]
         if x.size >= 2:
-            views += [x[::-1], x[0:x.size - 1], x[::2]]
+            # several handles whose generated NAMES coincide (a slice's name omits the step: x[:], x[0:n], x[::-1] are all "x[0:n]"),
+            # read one after the other from the same solution
+            views += [x[::-1], x[0:x.size - 1], x[::2], x[:], x[0:x.size], x[1:x.size], x[x.size - 2::-1]]
+            if x.size >= 4:
+                views += [x[0:4:2], x[0:4:3]]
         for w in views:
             hs.append(([[e.name for e in w._variables]], lambda s, w=w: np.atleast_2d(s[w])))
     for m in pool.matrices:
@@ -70,6 +74,13 @@ def handles(pool: gen.Pool, rng):
             hs.append(([[e.name for e in mv[:, mv.cols - 1]._variables]], lambda s, mv=mv: np.atleast_2d(s[mv[:, mv.cols - 1]])))
         if m.rows == m.cols:
             hs.append(([[e.name for e in m.diagonal()._variables]], lambda s, m=m: np.atleast_2d(s[m.diagonal()])))
+        if m.cols >= 3:
+            # two different windows of one row: both are called "M[0,:]" and have the same length
+            for a_, b_ in ((0, 2), (1, 3), (0, m.cols - 1), (1, m.cols)):
+                hs.append(([[e.name for e in m[0, a_:b_]._variables]], lambda s, m=m, a_=a_, b_=b_: np.atleast_2d(s[m[0, a_:b_]])))
+        if m.rows >= 3:
+            for a_, b_ in ((0, 2), (1, 3)):
+                hs.append(([[e.name for e in m[a_:b_, 0]._variables]], lambda s, m=m, a_=a_, b_=b_: np.atleast_2d(s[m[a_:b_, 0]])))
     return hs
 
 
